@@ -450,6 +450,43 @@ def job_contract(job, meth, soft):
 job_contract("_compute_best_alignment_job", "get_best_alignment", False)
 job_contract("_compute_soft_alignment_job", "get_best_soft_alignment", True)
 
+
+# ---------------------------------------------------------------------------------------------------------
+# fast alignment (C10): the structural clauses of the best alignment (a partition of the continuum's own units whose reported disorder
+# is the sum of its unitary alignments' over the mean number of units) hold for the windowed algorithm too.
+STRUCTURAL = ("fresh", "P1-well-formed-own-units", "P2-some-real-unit", "P3-every-unit-at-least-once", "P3-every-unit-at-most-once",
+              "disorder-is-sum-over-xbar")
+
+
+def fast_contracts():
+    import re
+    from pyvc.contract import REGISTRY
+    callee = REGISTRY[F + "Continuum.get_best_alignment"]
+    ren = lambda t: re.sub(r"\bself\b", "continuum", t)       # noqa: E731
+    ens = [c for c in callee.ensures if c.name in STRUCTURAL]
+    contract(F + "Continuum.get_fast_alignment",
+             params={"self": CONT(), "dissimilarity": DISSIM(), "window_size": IntT()}, returns=ALIGN("Alignment"),
+             modifies=[], macros=list(callee.macros.values()), binds={"result.continuum": "self"},
+             requires=[c.text for c in callee.requires] + ["window_size >= 1"],
+             raises={"AssertionError": {}, "SolverError": {}},
+             ensures=[cl(c.text, "C10", name=c.name) for c in ens],
+             trusted=True,
+             notes="assumed here (used by the job contract); decided by the bounded oracle harness/oracles/fast.py incl. its stall detector",
+             serves={"C10"})
+    contract(F + "_compute_fast_alignment_job",
+             params={"dissimilarity": DISSIM(), "continuum": CONT()}, returns=ALIGN("Alignment"), modifies=[],
+             macros=[Macro(m.name, m.params, ren(m.body.text)) for m in callee.macros.values()],
+             requires=[ren(c.text) for c in callee.requires] +
+                      ["continuum.best_window_size.isinf or continuum.best_window_size.val >= 1"],
+             binds={"result.continuum": "continuum"},
+             raises={"AssertionError": {}, "SolverError": {}},
+             ensures=[cl(ren(c.text), "C10", name=c.name) for c in ens],
+             notes="exact algorithm iff best_window_size is infinite: the branch structure is the wiring obligation C10/wiring/*",
+             serves={"C10", "C05", "C06"})
+
+
+fast_contracts()
+
 # =========================================================================================================
 # csv export / import   (C18 X1, X2)
 # =========================================================================================================
